@@ -1,2 +1,269 @@
-/-! line-protocol driver for property C10 (stub) -/
-def main (_args : List String) : IO Unit := pure ()
+import MirVerif.Model.TextIOWF
+/-! line-protocol driver for property C10 (textual MIR round trip).
+
+  mirdrv_c10 print   : module descriptions (same lines the C harness builds from) -> writer model bytes + WF verdict
+  mirdrv_c10 scan    : framed texts -> scanner model verdict and re-printed bytes
+  mirdrv_c10 table   : the instruction table of the model
+  mirdrv_c10 float   : libc correspondence of the floating literal codec (fmt / parse)
+-/
+open TextIO
+
+def bytesToChars (b : ByteArray) (lo hi : Nat) : List Char :=
+  (List.range (hi - lo)).map fun i => Char.ofNat (b.get! (lo + i)).toNat
+
+def charsToBytes (cs : List Char) : ByteArray :=
+  cs.foldl (fun acc c => acc.push c.toNat.toUInt8) ByteArray.empty
+
+def strBytes (s : String) : ByteArray := s.toUTF8
+
+partial def readAll (h : IO.FS.Stream) (acc : ByteArray) : IO ByteArray := do
+  let chunk ← h.read 65536
+  if chunk.isEmpty then return acc else readAll h (acc ++ chunk)
+
+/-- index of the next '\n' at or after `i` (or size) -/
+partial def findNl (b : ByteArray) (i : Nat) : Nat :=
+  if i ≥ b.size then b.size else if b.get! i == 10 then i else findNl b (i + 1)
+
+def splitOnC (sep : Char) (s : List Char) : List (List Char) :=
+  let rec go : List Char → List Char → List (List Char)
+    | [], cur => [cur.reverse]
+    | c :: cs, cur => if c = sep then cur.reverse :: go cs [] else go cs (c :: cur)
+  go s []
+
+def words (s : List Char) : List (List Char) := (splitOnC ' ' s).filter (· ≠ [])
+
+def natOf? (s : List Char) : Option Nat :=
+  if s.isEmpty || !(s.all isDigitC) then none else some (digitsVal s 0)
+
+def intOf? (s : List Char) : Option Int :=
+  match s with
+  | '-' :: t => (natOf? t).map fun n => -(n : Int)
+  | _ => (natOf? s).map fun n => (n : Int)
+
+def hexOf? (s : List Char) : Option Nat :=
+  if s.isEmpty || !(s.all isXDigit) then none else some (accDigits 16 s 0)
+
+def hexBytes : List Char → List Char
+  | a :: b :: rest => Char.ofNat (hexVal a * 16 + hexVal b) :: hexBytes rest
+  | _ => []
+
+def decName (s : List Char) : Str :=
+  match s with
+  | '~' :: h => hexBytes h
+  | _ => s
+
+def optName (s : List Char) : Option Str := if s = ['-'] then none else some (decName s)
+
+def i64Of (s : List Char) : Option (BitVec 64) := (intOf? s).map fun i => BitVec.ofInt 64 i
+
+def parseOpD (s : List Char) : Option Op :=
+  match splitOnC ':' s with
+  | [['r'], n] => some (.reg (decName n))
+  | [['i'], v] => (i64Of v).map .int
+  | [['u'], v] => (natOf? v).map fun n => .uint (BitVec.ofNat 64 n)
+  | [['f'], v] => (hexOf? v).map fun n => .flt (BitVec.ofNat 32 n)
+  | [['d'], v] => (hexOf? v).map fun n => .dbl (BitVec.ofNat 64 n)
+  | [['l', 'd'], v] => (hexOf? v).map fun n => .ldbl (BitVec.ofNat 80 n)
+  | [['r', 'e', 'f'], n] => some (.ref (decName n))
+  | [['s'], h] => some (.str (hexBytes h))
+  | [['s']] => some (.str [])
+  | [['l'], v] => (natOf? v).map .label
+  | [['m'], ty, disp, base, index, scale, al, nal] =>
+    match str2type ty, i64Of disp, natOf? scale with
+    | some t, some d, some sc =>
+      some (.mem ⟨t, d, optName base, optName index, BitVec.ofNat 8 sc, optName al, optName nal⟩)
+    | _, _, _ => none
+  | _ => none
+
+def parseVarD (s : List Char) : Option Var :=
+  match splitOnC ':' s with
+  | [ty, n, sz] =>
+    match str2type ty, natOf? sz with
+    | some t, some k => some ⟨t, decName n, k⟩
+    | _, _ => none
+  | _ => none
+
+def allSome {α} : List (Option α) → Option (List α)
+  | [] => some []
+  | none :: _ => none
+  | some x :: xs => (allSome xs).map (x :: ·)
+
+structure B where
+  mods : List Module := []
+  cur : Option Module := none
+  fn : Option Func := none
+
+def addIt (b : B) (it : Item) : Option B :=
+  b.cur.map fun m => { b with cur := some { m with items := m.items ++ [it] } }
+
+/-- `vararg nres res… nargs arg…` -/
+def parseSig (ws : List (List Char)) : Option (Bool × List Ty × List Var) :=
+  match ws with
+  | va :: nres :: rest =>
+    match natOf? va, natOf? nres with
+    | some v, some nr =>
+      match allSome ((rest.take nr).map str2type), rest.drop nr with
+      | some res, nargs :: args =>
+        match natOf? nargs with
+        | some na =>
+          if args.length ≠ na then none else
+          (allSome (args.map parseVarD)).map fun a => (v == 1, res, a)
+        | none => none
+      | _, _ => none
+    | _, _ => none
+  | _ => none
+
+def stepLine (b : B) (ws : List (List Char)) : Option B :=
+  match ws with
+  | [] => some b
+  | kw :: args =>
+    let k := String.ofList kw
+    match k, args with
+    | "labels", _ => some b
+    | "run", _ => some b
+    | "module", [n] => some { b with cur := some ⟨decName n, []⟩ }
+    | "endmodule", [] => b.cur.map fun m => { b with mods := b.mods ++ [m], cur := none }
+    | "export", [n] => addIt b (.export (decName n))
+    | "import", [n] => addIt b (.import (decName n))
+    | "forward", [n] => addIt b (.forward (decName n))
+    | "bss", [n, len] => (natOf? len).bind fun l => addIt b (.bss (optName n) (BitVec.ofNat 64 l))
+    | "strdata", [n, h] => addIt b (.data (optName n) .u8 ((hexBytes h).map (·.toNat)))
+    | "strdata", [n] => addIt b (.data (optName n) .u8 [])
+    | "data", n :: ty :: cnt :: vals =>
+      (match str2type ty, natOf? cnt, allSome (vals.map hexOf?) with
+       | some t, some c, some vs => if vs.length = c then addIt b (.data (optName n) t vs) else none
+       | _, _, _ => none)
+    | "ref", [n, it, d] => (i64Of d).bind fun dv => addIt b (.ref (optName n) (decName it) dv)
+    | "lref", [n, l1, l2, d] =>
+      (match natOf? l1, i64Of d with
+       | some a, some dv =>
+         if l2 = ['-'] then addIt b (.lref (optName n) a none dv)
+         else (natOf? l2).bind fun c => addIt b (.lref (optName n) a (some c) dv)
+       | _, _ => none)
+    | "expr", [n, f] => addIt b (.expr (optName n) (decName f))
+    | "proto", n :: sig =>
+      (parseSig sig).bind fun (v, res, a) => addIt b (.proto (decName n) res a v)
+    | "func", n :: sig =>
+      (parseSig sig).map fun (v, res, a) => { b with fn := some ⟨decName n, res, a, v, [], [], []⟩ }
+    | "local", [ty, n] =>
+      (match str2type ty, b.fn with
+       | some t, some f => some { b with fn := some { f with locals := f.locals ++ [(t, decName n)] } }
+       | _, _ => none)
+    | "global", [ty, n, hr] =>
+      (match str2type ty, b.fn with
+       | some t, some f => some { b with fn := some { f with globals := f.globals ++ [(t, decName n, decName hr)] } }
+       | _, _ => none)
+    | "label", [l] =>
+      (match natOf? l, b.fn with
+       | some k, some f => some { b with fn := some { f with body := f.body ++ [.label k] } }
+       | _, _ => none)
+    | "insn", nm :: cnt :: ops =>
+      (match findInsn nm, natOf? cnt, allSome (ops.map parseOpD), b.fn with
+       | some c, some k, some os, some f =>
+         if os.length = k then some { b with fn := some { f with body := f.body ++ [.insn c os] } } else none
+       | _, _, _, _ => none)
+    | "endfunc", [] =>
+      (match b.fn with
+       | some f => (addIt b (.func f)).map fun b' => { b' with fn := none }
+       | none => none)
+    | _, _ => none
+
+def buildCase (lines : List (List Char)) : Option (List Module) :=
+  let rec go : B → List (List Char) → Option B
+    | b, [] => some b
+    | b, l :: ls => (stepLine b (words l)).bind fun b' => go b' ls
+  (go {} lines).map (·.mods)
+
+def errStr : Err → String
+  | .syntax m => "syntax " ++ m
+  | .api m => "api " ++ m
+  | .unmodelled m => "unmodelled " ++ m
+  | .internal => "internal"
+
+def emit (out : IO.FS.Stream) (s : String) : IO Unit := out.write (strBytes s)
+
+def emitBlob (out : IO.FS.Stream) (tag : String) (cs : List Char) : IO Unit := do
+  let b := charsToBytes cs
+  out.write (strBytes s!"{tag} {b.size}\n")
+  out.write b
+  out.write (strBytes "\n")
+
+/-- all lines of the input as char lists -/
+def allLines (b : ByteArray) : List (List Char) := splitOnC '\n' (bytesToChars b 0 b.size)
+
+def isCaseLine (l : List Char) : Option (List Char) :=
+  match words l with
+  | [['c', 'a', 's', 'e'], id] => some id
+  | _ => none
+
+partial def runPrint (out : IO.FS.Stream) (lines : List (List Char)) : IO Unit := do
+  match lines with
+  | [] => return
+  | l :: rest =>
+    match isCaseLine l with
+    | none => runPrint out rest
+    | some id =>
+      let body := rest.takeWhile fun x => x ≠ ['e', 'n', 'd']
+      let rest' := (rest.dropWhile fun x => x ≠ ['e', 'n', 'd']).drop 1
+      emit out s!"case {String.ofList id}\n"
+      match buildCase body with
+      | none => emit out "baddesc\n"
+      | some ms =>
+        emitBlob out "text" (printText ms)
+        emit out s!"wf {wfReport ms}\n"
+        emitBlob out "norm" (printText (normText ms))
+      runPrint out rest'
+
+partial def runScan (out : IO.FS.Stream) (b : ByteArray) (i : Nat) : IO Unit := do
+  if i ≥ b.size then return
+  let e := findNl b i
+  let hdr := words (bytesToChars b i e)
+  match hdr with
+  | [['c', 'a', 's', 'e'], id, len] =>
+    match natOf? len with
+    | none => return
+    | some n =>
+      let txt := bytesToChars b (e + 1) (e + 1 + n)
+      emit out s!"case {String.ofList id}\n"
+      match scanText txt with
+      | .ok ms => emitBlob out "ok" (printText ms)
+      | .error err => emit out s!"err {errStr err}\n"
+      runScan out b (e + 1 + n + 1)
+  | _ => runScan out b (e + 1)
+
+def runTable (out : IO.FS.Stream) : IO Unit := do
+  for i in List.range insnTable.length do
+    emit out s!"{i} {String.ofList (insnName i)} {insnNops i} {if isBranchCode i then 1 else 0} {if isCallCode i then 1 else 0} {if isVarNops i then 1 else 0}\n"
+  emit out s!"codes {opJMP} {opUBNO} {opLADDR} {opSWITCH} {opRET} {opJRET} {opPRBEQ} {opPRBNE} {opUNSPEC} {opUSE} {opPHI} {opLABEL} {opINVALIDINSN} {insnTable.length}\n"
+  emit out s!"digits {fmtF.prec} {fmtD.prec} {fmtLD.prec}\n"
+
+def hexOfNat (n : Nat) (digits : Nat) : String := String.ofList (padLeft digits '0' (natHex n))
+
+/-- lines: `fmt f|d|ld <hexbits>` -> printed literal ; `parse f|d|ld <lexeme>` -> hex bits -/
+def runFloat (out : IO.FS.Stream) (lines : List (List Char)) : IO Unit := do
+  for l in lines do
+    match words l with
+    | [['f', 'm', 't'], k, h] =>
+      let fm := if k = ['f'] then fmtF else if k = ['d'] then fmtD else fmtLD
+      match hexOf? h with
+      | some bits =>
+        match fmtSci fm bits with
+        | some s => emit out s!"{String.ofList s}\n"
+        | none => emit out "special\n"
+      | none => emit out "bad\n"
+    | [['p', 'a', 'r', 's', 'e'], k, lx] =>
+      let fm := if k = ['f'] then fmtF else if k = ['d'] then fmtD else fmtLD
+      match parseSci fm lx with
+      | some bits => emit out s!"{hexOfNat bits (fm.totalBits / 4)}\n"
+      | none => emit out "none\n"
+    | _ => pure ()
+
+def main (args : List String) : IO Unit := do
+  let inp ← readAll (← IO.getStdin) ByteArray.empty
+  let out ← IO.getStdout
+  match args with
+  | ["print"] => runPrint out (allLines inp)
+  | ["scan"] => runScan out inp 0
+  | ["table"] => runTable out
+  | ["float"] => runFloat out (allLines inp)
+  | _ => IO.eprintln "usage: mirdrv_c10 print|scan|table|float"
